@@ -10,10 +10,23 @@ The first half of the file works on string *contents*; the second half wraps the
 the store (a string has an identity `id`, its contents live in `strs[id]`).
 
 Case mapping (`to_lowercase`, `to_uppercase`) and the Unicode character classes enter through a
-`CaseTable` parameter: abstract in the theorems, an oracle table sent by the harness in the driver.
-Rust's `str::to_lowercase` maps every character through `char::to_lowercase` except capital sigma,
-whose image depends on its position in the word; the model maps per character, and the generators
-never produce U+03A3 (documented gap).
+`CaseTable` parameter: abstract in the theorems, an oracle table sent by the harness in the driver
+(the Unicode tables of Rust's `std` themselves stay trusted).
+Two different lower-casings exist in string.rs since fix fbafd01, and both are modelled:
+* `string-foldcase` and the five `string-ci…?` comparisons fold every character on its own
+  (`s.chars().flat_map(char::to_lowercase)`): `strLower`, context free.
+* `string-downcase` calls `str::to_lowercase`, which maps every character through
+  `char::to_lowercase` except capital sigma U+03A3: by the Final_Sigma rule of Unicode it becomes
+  the final form `ς` U+03C2 iff it is preceded - skipping Case_Ignorable characters - by a Cased
+  character and not followed - skipping Case_Ignorable characters - by a Cased one, and `σ` U+03C3
+  otherwise (`map_uppercase_sigma` / `case_ignorable_then_cased` in library/alloc/src/str.rs):
+  `strLowerCtx`. The two predicates are the fields `cased` and `caseIgnorable` of the table. std
+  skips first and tests `is_cased` only on the first character that is not Case_Ignorable, so the
+  value of `cased` on a Case_Ignorable character is never consulted (the harness sends `false` there).
+  `str::to_lowercase` also has a fast path for an ASCII prefix (`to_ascii_lowercase`); like the
+  per-character mapping it is covered by the oracle table (on ASCII the two agree in `std`).
+U+03A3, U+03C3, U+03C2 are generated in every position (alone, doubled, word-initial, -medial,
+-final, next to Case_Ignorable and to uncased characters).
 Ordering of `&str` is bytewise in Rust, which for valid UTF-8 is the lexicographic order of the
 code points; the model compares code points (`cmpText`).
 -/
@@ -126,10 +139,45 @@ structure CaseTable where
   whitespace : Char → Bool
   isLower : Char → Bool
   isUpper : Char → Bool
+  /-- `char::is_cased` (Unicode `Cased`), where `str::to_lowercase` consults it: on characters that
+      are not Case_Ignorable -/
+  cased : Char → Bool
+  /-- `char::is_case_ignorable` (Unicode `Case_Ignorable`) -/
+  caseIgnorable : Char → Bool
 
-/-- `str::to_lowercase` / `to_uppercase` (per character; see the header for capital sigma) -/
+/-- `s.chars().flat_map(char::to_lowercase)` (`foldcase` of string.rs: `string-foldcase`, `string-ci…?`)
+    and `str::to_uppercase`: every character on its own -/
 def strLower (T : CaseTable) (cs : Text) : Text := cs.flatMap T.lower
 def strUpper (T : CaseTable) (cs : Text) : Text := cs.flatMap T.upper
+
+/-! ### `str::to_lowercase` (`string-downcase`): per character, except capital sigma -/
+
+def capSigma : Char := 'Σ'
+def smallSigma : Char := 'σ'
+def finalSigma : Char := 'ς'
+
+/-- `case_ignorable_then_cased(iter)`:
+    `match iter.skip_while(|&c| c.is_case_ignorable()).next() { Some(c) => c.is_cased(), None => false }` -/
+def ignorableThenCased (T : CaseTable) : List Char → Bool
+  | [] => false
+  | c :: cs => if T.caseIgnorable c then ignorableThenCased T cs else T.cased c
+
+/-- `map_uppercase_sigma(from, i)`: `before` = `from[..i].chars().rev()` (nearest character first),
+    `after` = the characters behind the sigma -/
+def sigmaImage (T : CaseTable) (before after : List Char) : Char :=
+  if ignorableThenCased T before && !ignorableThenCased T after then finalSigma else smallSigma
+
+/-- what one character contributes to `str::to_lowercase` -/
+def lowerCtxPiece (T : CaseTable) (before : List Char) (c : Char) (after : List Char) : List Char :=
+  if c = capSigma then [sigmaImage T before after] else T.lower c
+
+/-- the loop of `str::to_lowercase`; `before` = the characters already consumed, last first -/
+def lowerCtxGo (T : CaseTable) : List Char → List Char → Text
+  | _, [] => []
+  | before, c :: cs => lowerCtxPiece T before c cs ++ lowerCtxGo T (c :: before) cs
+
+/-- `str::to_lowercase` -/
+def strLowerCtx (T : CaseTable) (cs : Text) : Text := lowerCtxGo T [] cs
 
 /-- the loop of `string_comp` / `char_comp`: `xs` = the remaining arguments, last first; `y` the
     argument to their right; every adjacent pair is tested, nothing short-circuits -/
